@@ -184,6 +184,14 @@ class HTTP2Connection(ConnectionInterface):
                     raise RemoteProtocolError(self._connection_terminated)
                 # If h2 raises a protocol error in some other state then we
                 # must somehow have made a protocol violation.
+                #
+                # h2 validates outgoing headers lazily, while they are being
+                # HPACK encoded, so the fields in front of the offending one
+                # are already in the encoder's dynamic table although the
+                # header block is never sent. Further header blocks from this
+                # connection could not be decoded by the server, so it must
+                # not accept any new requests.
+                self._connection_error = True
                 raise LocalProtocolError(exc)  # pragma: nocover
 
             raise exc
